@@ -239,7 +239,7 @@ def store_case(rng, tag):
 
 def generate(seed, tier):
     rng = random.Random(seed)
-    N = 4500 if tier == "thorough" else 650
+    N = 6000 if tier == "thorough" else 1100
     cases = []
     # ---- fixed edge cases --------------------------------------------------------------------
     one = hx(2)
